@@ -63,6 +63,13 @@ def run(tier):
             reqs.append({"iupac": other + n}); meta.append(("other", r, other + n))
         if r["table"] == "p" and r["config"] == 0 and ("o", r["key"] + "-OL") in by_key:
             reqs.append({"iupac": r["name"] + "-ol"}); meta.append(("ol", by_key[("o", r["key"] + "-OL")], r["name"] + "-ol"))
+            # the series prefix on the alditol follows the series of the sugar (its ring rows)
+            if r["isomer"] in (0, 1):
+                own = "D-" if r["isomer"] == 0 else "L-"
+                other = "L-" if r["isomer"] == 0 else "D-"
+                ro = by_key[("o", r["key"] + "-OL")]
+                reqs.append({"iupac": own + r["name"] + "-ol"}); meta.append(("own", ro, own + r["name"] + "-ol"))
+                reqs.append({"iupac": other + r["name"] + "-ol"}); meta.append(("other", ro, other + r["name"] + "-ol"))
     outs = C.run_impl_parallel("convert_many", reqs)
     n_api = 0
     for (kind, r, name), o in zip(meta, outs):
